@@ -46,3 +46,48 @@ def mkstr(cps):
         with NoTracing():
             return LazyIntSymbolicStr(list(cps))
     return "".join(chr(c) for c in cps)
+
+
+_NT = _SB = _z3 = None
+
+
+def _lazy():
+    global _NT, _SB, _z3
+    if _NT is None:
+        from crosshair.tracers import NoTracing
+        from crosshair.libimpl.builtinslib import SymbolicBool
+        import z3
+        _NT, _SB, _z3 = NoTracing, SymbolicBool, z3
+
+
+def sym_and(a, b):
+    """non-forking conjunction; builds z3.And directly for CrossHair symbolic bools (their `&` costs ~12 ms)"""
+    if a is False or b is False:
+        return False
+    if a is True:
+        return b
+    if b is True:
+        return a
+    if chplugin.SYMBOLIC:
+        if _NT is None:
+            _lazy()
+        with _NT():
+            if isinstance(a, _SB) and isinstance(b, _SB):
+                return _SB(_z3.And(a.var, b.var))
+    return a & b
+
+
+def sym_or(a, b):
+    if a is True or b is True:
+        return True
+    if a is False:
+        return b
+    if b is False:
+        return a
+    if chplugin.SYMBOLIC:
+        if _NT is None:
+            _lazy()
+        with _NT():
+            if isinstance(a, _SB) and isinstance(b, _SB):
+                return _SB(_z3.Or(a.var, b.var))
+    return a | b
